@@ -1,11 +1,49 @@
 import RisorModel.Util
 import RisorModel.C13.Oracle
+import RisorModel.C01.Oracle
+import RisorModel.C02.Oracle
+import RisorModel.C03.Oracle
+import RisorModel.C04.Oracle
+import RisorModel.C05.Oracle
+import RisorModel.C06.Oracle
+import RisorModel.C07.Oracle
+import RisorModel.C08.Oracle
+import RisorModel.C09.Oracle
+import RisorModel.C10.Oracle
+import RisorModel.C11.Oracle
+import RisorModel.C12.Oracle
+import RisorModel.C14.Oracle
+import RisorModel.C15.Oracle
+import RisorModel.C16.Oracle
+import RisorModel.C17.Oracle
+import RisorModel.C18.Oracle
+import RisorModel.C19.Oracle
+import RisorModel.C20.Oracle
 open Risor
 
 def dispatch (fs : List String) : String :=
   match fs with
   | "PING" :: _ => "PONG"
   | "C13" :: rest => C13.handle rest
+  | "C01" :: rest => C01.handle rest
+  | "C02" :: rest => C02.handle rest
+  | "C03" :: rest => C03.handle rest
+  | "C04" :: rest => C04.handle rest
+  | "C05" :: rest => C05.handle rest
+  | "C06" :: rest => C06.handle rest
+  | "C07" :: rest => C07.handle rest
+  | "C08" :: rest => C08.handle rest
+  | "C09" :: rest => C09.handle rest
+  | "C10" :: rest => C10.handle rest
+  | "C11" :: rest => C11.handle rest
+  | "C12" :: rest => C12.handle rest
+  | "C14" :: rest => C14.handle rest
+  | "C15" :: rest => C15.handle rest
+  | "C16" :: rest => C16.handle rest
+  | "C17" :: rest => C17.handle rest
+  | "C18" :: rest => C18.handle rest
+  | "C19" :: rest => C19.handle rest
+  | "C20" :: rest => C20.handle rest
   | _ => "error\tunknown-request"
 
 partial def loop (hin hout : IO.FS.Stream) : IO Unit := do
